@@ -7,12 +7,6 @@ Close Scope Q_scope.
 #[local] Remove Hints NumQ NumZ : typeclass_instances.
 
 Definition is_ltv (k : kind) : bool := match k with KLTV => true | _ => false end.
-(* the time at which the forward pass starts, and the time after a whole solve *)
-Definition fwd_start (k : kind) (tm : Z) (T : nat) : Z :=
-  if is_ltv k && (2 <=? T)%nat then 0%Z else (tm + Z.of_nat (T - 1))%Z.
-Definition lqr_time (k : kind) (tm : Z) (T : nat) : Z :=
-  match T with O => tm | _ => (fwd_start k tm T + Z.of_nat T)%Z end.
-
 (* ====================================================================== structure (any F) *)
 Section Gen.
 Context {F : Type} {NF : Num F}.
@@ -20,6 +14,8 @@ Implicit Types s : ssys (F:=F).
 Local Open Scope num_scope.
 
 Lemma tick_eq s t : tick s t = (t + 1)%Z.
+Proof. reflexivity. Qed.
+Lemma treset_eq s t : treset s t = 0%Z.
 Proof. reflexivity. Qed.
 Lemma setref_eq s t v : setref s t v = if is_ltv (sk s) then v else t.
 Proof. unfold setref, step_time', step_time. destruct (sk s); reflexivity. Qed.
@@ -137,90 +133,61 @@ Proof.
     rewrite setref_eq. cbn [length]. destruct (is_ltv (sk s)); [reflexivity|]. rewrite E2. reflexivity.
 Qed.
 
-(* under constant coefficients the backward pass does not depend on the times *)
 Definition drop4 {A B C D} (o : option (A * B * C * D)) : option (A * B * C) :=
   match o with Some (a, b, c, _) => Some (a, b, c) | None => None end.
-Lemma bwd_const s dt (Hc : forall t, scoef s t = scoef s 0%Z) l : forall t tm t' tm',
-  drop4 (bwd s dt t tm l) = drop4 (bwd s dt t' tm' l).
-Proof.
-  induction l as [|[[st xb] ub] rest IH]; intros t tm t' tm'; [reflexivity|].
-  destruct rest as [|it r].
-  - rewrite !bwd_one. destruct (tgain st xb ub) as [[[[K k] V0] v0]|]; reflexivity.
-  - rewrite !bwd_cons2. specialize (IH (t + 1)%Z tm (t' + 1)%Z tm').
-    destruct (bwd s dt (t + 1)%Z tm (it :: r)) as [[[[Ks V] v] tm1]|];
-      destruct (bwd s dt (t' + 1)%Z tm' (it :: r)) as [[[[Ks2 V2] v2] tm12]|]; cbn [drop4] in IH;
-      try discriminate; [|reflexivity].
-    inversion IH; subst. cbv zeta.
-    rewrite (Hc (setref s tm1 (t * dt)%Z)), (Hc (setref s tm12 (t' * dt)%Z)).
-    destruct (bgain _ _ _ _ _ _ _) as [[[[K k] V0] v0]|]; reflexivity.
-Qed.
 
 (* ---- the whole solve: feasibility and time bookkeeping *)
 Theorem lqr_structure s dt prob x0 un tm xs us c tm' :
   lqr_solve s dt prob x0 un tm = Some (xs, us, c, tm') ->
-  length us = length prob /\
-  xs = x0 :: traj s (fwd_start (sk s) tm (length prob)) x0 us /\
-  tm' = lqr_time (sk s) tm (length prob).
+  length us = length prob /\ xs = x0 :: traj s 0 x0 us /\ tm' = Z.of_nat (length prob).
 Proof.
   unfold lqr_solve. set (ub := match un with None => repeat zero (length prob) | Some u => u end).
   destruct (Nat.eqb (length ub) (length prob)) eqn:El; cbn [negb]; [|discriminate].
-  apply Nat.eqb_eq in El.
+  apply Nat.eqb_eq in El. rewrite !treset_eq.
   destruct prob as [|st0 pr].
   - intros H. inversion H; subst. cbn. split; [reflexivity|]. split; reflexivity.
   - lazy beta iota. set (prob := st0 :: pr) in *.
     assert (Hne : (1 <= length prob)%nat) by (subst prob; cbn [length]; lia).
-    assert (Elt : lqr_time (sk s) tm (length prob) = (fwd_start (sk s) tm (length prob) + Z.of_nat (length prob))%Z)
-      by (subst prob; reflexivity).
     clearbody prob. unfold runsys.
-    destruct (rollout s tm x0 (firstn (length prob - 1) ub)) as [xr tm1] eqn:Er.
-    assert (Et1 : tm1 = (tm + Z.of_nat (length prob - 1))%Z).
-    { pose proof (rollout_time s (firstn (length prob - 1) ub) tm x0) as Ht. rewrite Er in Ht. cbn [snd] in Ht.
-      rewrite Ht, firstn_length_le; [reflexivity|lia]. }
+    destruct (rollout s 0%Z x0 (firstn (length prob - 1) ub)) as [xr tm1] eqn:Er.
     assert (Exr : length xr = (length prob - 1)%nat).
-    { pose proof (rollout_traj s (firstn (length prob - 1) ub) tm x0) as Ht. rewrite Er in Ht. cbn [fst] in Ht.
+    { pose proof (rollout_traj s (firstn (length prob - 1) ub) 0%Z x0) as Ht. rewrite Er in Ht. cbn [fst] in Ht.
       rewrite Ht, traj_len, firstn_length_le; [reflexivity|lia]. }
     set (items := combine (combine prob (x0 :: xr)) ub).
     assert (Eli : length items = length prob).
     { unfold items. rewrite !combine_length. cbn [length]. rewrite Exr, El. lia. }
     destruct (bwd s dt 0%Z tm1 items) as [[[[Ks V] v] tm2]|] eqn:Eb; [|discriminate].
-    destruct (bwd_len_time _ _ _ _ _ _ _ _ _ Eb) as [ElK Et2].
-    destruct (fwd s tm2 x0 (combine items Ks) zero) as [[[xs1 us1] c1] tm3] eqn:Ef.
+    destruct (bwd_len_time _ _ _ _ _ _ _ _ _ Eb) as [ElK _]. rewrite treset_eq.
+    destruct (fwd s 0%Z x0 (combine items Ks) zero) as [[[xs1 us1] c1] tm3] eqn:Ef.
     intros H. inversion H; subst xs us c tm'.
     destruct (fwd_spec _ _ _ _ _ _ _ _ _ Ef) as (F1 & F2 & F3).
     rewrite combine_length, ElK, Nat.min_id, Eli in F2, F3.
-    assert (Et : tm2 = fwd_start (sk s) tm (length prob)).
-    { rewrite Et2, Eli, Et1. unfold fwd_start. destruct (is_ltv (sk s) && (2 <=? length prob)%nat); [lia|reflexivity]. }
-    split; [exact F2|]. split; [now rewrite F1, Et|].
-    rewrite Elt, <- Et. exact F3.
+    split; [exact F2|]. split; [now rewrite F1|]. rewrite F3. lia.
 Qed.
 
-(* history independence on a time-invariant system (any number type, any dt) *)
-Theorem lqr_history_independent_const s dt prob x0 un tm tm' :
-  (forall t, scoef s t = scoef s 0%Z) ->
-  drop4 (lqr_solve s dt prob x0 un tm) = drop4 (lqr_solve s dt prob x0 un tm').
-Proof.
-  intros Hc. unfold lqr_solve. set (ub := match un with None => repeat zero (length prob) | Some u => u end).
-  destruct (negb (Nat.eqb (length ub) (length prob))); [reflexivity|].
-  destruct prob as [|st0 pr]; [reflexivity|]. lazy beta iota. set (prob := st0 :: pr) in *. clearbody prob.
-  unfold runsys.
-  assert (Hext : forall n a b i, (0 <= i < n)%Z -> scoef s (a + i)%Z = scoef s (b + i)%Z)
-    by (intros; rewrite (Hc (a + i)%Z), (Hc (b + i)%Z); reflexivity).
-  destruct (rollout s tm x0 (firstn (length prob - 1) ub)) as [xr tm1] eqn:Er.
-  destruct (rollout s tm' x0 (firstn (length prob - 1) ub)) as [xr' tm1'] eqn:Er'.
-  assert (Exr : xr = xr').
-  { pose proof (rollout_traj s (firstn (length prob - 1) ub) tm x0) as H1. rewrite Er in H1.
-    pose proof (rollout_traj s (firstn (length prob - 1) ub) tm' x0) as H2. rewrite Er' in H2.
-    cbn [fst] in H1, H2. rewrite H1, H2. apply traj_ext. apply Hext. }
-  subst xr'. set (items := combine (combine prob (x0 :: xr)) ub).
-  pose proof (bwd_const s dt Hc items 0%Z tm1 0%Z tm1') as Hb.
-  destruct (bwd s dt 0%Z tm1 items) as [[[[Ks V] v] tm2]|];
-    destruct (bwd s dt 0%Z tm1' items) as [[[[Ks' V'] v'] tm2']|]; cbn [drop4] in Hb; try discriminate; [|reflexivity].
-  inversion Hb; subst.
-  pose proof (fwd_ext s (combine items Ks') tm2 tm2' x0 zero (Hext _ _ _)) as Hf.
-  destruct (fwd s tm2 x0 (combine items Ks') zero) as [[[xs1 us1] c1] tm3].
-  destruct (fwd s tm2' x0 (combine items Ks') zero) as [[[xs2 us2] c2] tm3'].
-  cbn [fst] in Hf. inversion Hf; subst. reflexivity.
-Qed.
+Corollary lqr_feasible s dt prob x0 un tm xs us c tm' :
+  lqr_solve s dt prob x0 un tm = Some (xs, us, c, tm') ->
+  length us = length prob /\ xs = x0 :: traj s 0 x0 us.
+Proof. intros H. destruct (lqr_structure _ _ _ _ _ _ _ _ _ _ H) as (A & B & _). now split. Qed.
+Corollary lqr_time_bookkeeping s dt prob x0 un tm xs us c tm' :
+  lqr_solve s dt prob x0 un tm = Some (xs, us, c, tm') -> tm' = Z.of_nat (length prob).
+Proof. intros H. exact (proj2 (proj2 (lqr_structure _ _ _ _ _ _ _ _ _ _ H))). Qed.
+
+(* history independence: a solve does not depend on the time counter it finds (any system, any
+   number type, any dt) - both passes reset it *)
+Theorem lqr_history_independent s dt prob x0 un tm tm' :
+  lqr_solve s dt prob x0 un tm = lqr_solve s dt prob x0 un tm'.
+Proof. reflexivity. Qed.
+(* hence any sequence of earlier solves, whatever they were, leaves the next result unchanged *)
+Fixpoint after_history s (tm : Z) (h : list (Z * list stage * F * option (list F))) : Z :=
+  match h with
+  | [] => tm
+  | (dt, prob, x0, un) :: r =>
+      after_history s (match lqr_solve s dt prob x0 un tm with Some (_, _, _, t) => t | None => tm end) r
+  end.
+Corollary lqr_after_any_history s h dt prob x0 un tm :
+  lqr_solve s dt prob x0 un (after_history s tm h) = lqr_solve s dt prob x0 un 0%Z.
+Proof. apply lqr_history_independent. Qed.
 End Gen.
 
 (* ====================================================================== optimality (R) *)
@@ -446,55 +413,37 @@ Proof.
   cbn [nom_items length]. f_equal. apply IH. now injection Hl.
 Qed.
 
-(* the system's coefficients as the solver reads them agree with those of a fresh object:
-   an LTV object whose next T coefficients are those of times 0..T-1 (in particular: time 0),
-   or a time-invariant system *)
-Definition coef_ok (s : sysR) (tm : Z) (T : nat) : Prop :=
-  (sk s = KLTV /\ forall i, (0 <= i < Z.of_nat T)%Z -> scoef s (tm + i)%Z = scoef s i) \/
-  (forall t, scoef s t = scoef s 0%Z).
+(* a well-formed system object: an LTV object (set_refpoint assigns the time, the coefficients may
+   depend on it) or an object with constant coefficients (LTI) *)
+Definition sys_ok (s : sysR) : Prop := sk s = KLTV \/ (forall t, scoef s t = scoef s 0%Z).
 
 Theorem lqr_optimal_scalar (s : sysR) prob x0 un tm xs us c tm' :
-  Forall pd prob -> coef_ok s tm (length prob) ->
+  Forall pd prob -> sys_ok s ->
   lqr_solve s 1 prob x0 un tm = Some (xs, us, c, tm') ->
   length us = length prob /\ xs = x0 :: traj s 0 x0 us /\ c = Jcost s 0 x0 prob us /\
   forall us', length us' = length prob -> c <= Jcost s 0 x0 prob us'.
 Proof.
   intros Hpd Hok H.
   assert (G1 : forall v tm', scoef s (setref s tm' v) = scoef s v).
-  { intros v tm0. rewrite setref_eq. destruct Hok as [[Hk _]|Hc]; [now rewrite Hk|].
+  { intros v tm0. rewrite setref_eq. destruct Hok as [Hk|Hc]; [now rewrite Hk|].
     rewrite (Hc (if is_ltv (sk s) then v else tm0)), (Hc v). reflexivity. }
-  assert (G2 : forall i, (0 <= i < Z.of_nat (length prob))%Z -> scoef s (tm + i)%Z = scoef s (0 + i)%Z).
-  { intros i Hi. destruct Hok as [[_ Hh]|Hc]; [now apply Hh|]. rewrite (Hc (tm + i)%Z), (Hc (0 + i)%Z). reflexivity. }
-  assert (G3 : forall i, (0 <= i < Z.of_nat (length prob))%Z ->
-               scoef s (fwd_start (sk s) tm (length prob) + i)%Z = scoef s (0 + i)%Z).
-  { intros i Hi. destruct Hok as [[Hk Hh]|Hc]; [|rewrite (Hc (_ + i)%Z), (Hc (0 + i)%Z); reflexivity].
-    unfold fwd_start. rewrite Hk. cbn [is_ltv andb]. destruct (2 <=? length prob)%nat eqn:E2; [reflexivity|].
-    apply Nat.leb_gt in E2. replace (tm + Z.of_nat (length prob - 1) + i)%Z with (tm + i)%Z by lia. now apply Hh. }
   destruct (lqr_structure _ _ _ _ _ _ _ _ _ _ H) as (L1 & L2 & _).
-  split; [exact L1|]. split.
-  { rewrite L2. f_equal. apply traj_ext. rewrite L1. exact G3. }
+  split; [exact L1|]. split; [exact L2|].
   revert H. unfold lqr_solve. set (ub := match un with None => repeat zero (length prob) | Some u => u end).
   destruct (Nat.eqb (length ub) (length prob)) eqn:El; cbn [negb]; [|discriminate].
-  apply Nat.eqb_eq in El.
+  apply Nat.eqb_eq in El. rewrite !treset_eq.
   destruct prob as [|st0 pr].
   - intros H. inversion H; subst. cbn [Jcost]. split; [reflexivity|]. intros us' _. nu. lra.
   - lazy beta iota. set (prob := st0 :: pr) in *.
     assert (Hne : (1 <= length prob)%nat) by (subst prob; cbn [length]; lia). clearbody prob.
-    unfold runsys. destruct (rollout s tm x0 (firstn (length prob - 1) ub)) as [xr tm1] eqn:Er.
+    unfold runsys. destruct (rollout s 0%Z x0 (firstn (length prob - 1) ub)) as [xr tm1] eqn:Er.
     assert (Exr : xr = traj s 0 x0 (firstn (length prob - 1) ub)).
-    { pose proof (rollout_traj s (firstn (length prob - 1) ub) tm x0) as Ht. rewrite Er in Ht. cbn [fst] in Ht.
-      rewrite Ht. apply traj_ext. intros i Hi. apply G2. rewrite firstn_length_le in Hi; lia. }
+    { pose proof (rollout_traj s (firstn (length prob - 1) ub) 0%Z x0) as Ht. rewrite Er in Ht. exact Ht. }
     rewrite Exr, (nom_items_eq s prob 0%Z x0 ub El). set (items := nom_items s 0 x0 prob ub).
     assert (Eli : length items = length prob) by (apply nom_len; exact El).
     destruct (bwd s 1 0%Z tm1 items) as [[[[Ks V] v] tm2]|] eqn:Eb; [|discriminate].
-    destruct (bwd_len_time _ _ _ _ _ _ _ _ _ Eb) as [ElK Et2].
-    assert (Et : tm2 = fwd_start (sk s) tm (length prob)).
-    { pose proof (rollout_time s (firstn (length prob - 1) ub) tm x0) as Ht. rewrite Er in Ht. cbn [snd] in Ht.
-      rewrite firstn_length_le in Ht by lia.
-      rewrite Et2, Eli, Ht. unfold fwd_start. destruct (is_ltv (sk s) && (2 <=? length prob)%nat); [lia|reflexivity]. }
-    assert (Hf : fst (fwd s tm2 x0 (combine items Ks) zero) = fst (fwd s 0%Z x0 (combine items Ks) zero)).
-    { apply fwd_ext. rewrite combine_length, ElK, Nat.min_id, Eli, Et. exact G3. }
-    destruct (fwd s tm2 x0 (combine items Ks) zero) as [[[xs1 us1] c1] tm3] eqn:Ef. cbn [fst] in Hf.
+    destruct (bwd_len_time _ _ _ _ _ _ _ _ _ Eb) as [ElK _]. rewrite treset_eq.
+    destruct (fwd s 0%Z x0 (combine items Ks) zero) as [[[xs1 us1] c1] tm3] eqn:Ef.
     intros H. inversion H; subst xs us c tm'.
     assert (Hst : stages items = prob) by (apply nom_stages; exact El).
     destruct (bellman s G1 items 0%Z tm1 Ks V v tm2 ltac:(rewrite Hst; exact Hpd) (nom_chain s prob 0%Z x0 ub) Eb)
@@ -504,31 +453,16 @@ Proof.
     replace (V / 2 * ((x0 - x0) * (x0 - x0)) + v * (x0 - x0) + C) with C in HC1, HC2 by ring.
     pose proof (fwd_cost_J s (combine items Ks) 0%Z x0) as HJ.
     rewrite stage_of_combine, Hst in HJ by exact ElK.
-    unfold fcost in HC1. change (@zero R NumR) with 0 in Hf. rewrite <- Hf in HJ, HC1. cbn [fst snd] in HJ, HC1.
+    unfold fcost in HC1. change (@zero R NumR) with 0 in Ef. rewrite Ef in HJ, HC1. cbn [fst snd] in HJ, HC1.
     split; [exact HJ|]. intros us' Hl. rewrite HC1. rewrite <- Hst. apply HC2. now rewrite Eli.
 Qed.
 
 (* ---- corollaries *)
-(* a fresh (or reset) LTV object, and any LTI object whatever its time counter *)
-Corollary lqr_optimal_fresh (s : sysR) prob x0 un xs us c tm' :
-  sk s = KLTV -> Forall pd prob -> lqr_solve s 1 prob x0 un 0%Z = Some (xs, us, c, tm') ->
-  c = Jcost s 0 x0 prob us /\ forall us', length us' = length prob -> c <= Jcost s 0 x0 prob us'.
-Proof.
-  intros Hk Hpd H. refine (proj2 (proj2 (lqr_optimal_scalar s prob x0 un 0%Z xs us c tm' Hpd _ H))).
-  left. split; [exact Hk|]. intros i _. reflexivity.
-Qed.
-Corollary lqr_optimal_lti (s : sysR) prob x0 un tm xs us c tm' :
-  (forall t, scoef s t = scoef s 0%Z) -> Forall pd prob ->
+(* the optimal cost does not depend on the nominal input trajectory nor on the time counters *)
+Corollary lqr_cost_nominal_independent (s : sysR) prob x0 un un' tm tm0 xs us c tm' xs2 us2 c2 tm2 :
+  Forall pd prob -> sys_ok s ->
   lqr_solve s 1 prob x0 un tm = Some (xs, us, c, tm') ->
-  c = Jcost s 0 x0 prob us /\ forall us', length us' = length prob -> c <= Jcost s 0 x0 prob us'.
-Proof.
-  intros Hc Hpd H. refine (proj2 (proj2 (lqr_optimal_scalar s prob x0 un tm xs us c tm' Hpd _ H))). now right.
-Qed.
-(* the optimal cost does not depend on the nominal input trajectory *)
-Corollary lqr_cost_nominal_independent (s : sysR) prob x0 un un' tm xs us c tm' xs2 us2 c2 tm2 :
-  Forall pd prob -> coef_ok s tm (length prob) ->
-  lqr_solve s 1 prob x0 un tm = Some (xs, us, c, tm') ->
-  lqr_solve s 1 prob x0 un' tm = Some (xs2, us2, c2, tm2) -> c = c2.
+  lqr_solve s 1 prob x0 un' tm0 = Some (xs2, us2, c2, tm2) -> c = c2.
 Proof.
   intros Hpd Hok H1 H2.
   destruct (lqr_optimal_scalar _ _ _ _ _ _ _ _ _ Hpd Hok H1) as (L1 & _ & J1 & O1).
@@ -536,66 +470,63 @@ Proof.
   pose proof (O1 us2 L2). pose proof (O2 us L1). lra.
 Qed.
 
-(* the reported cost is the sum of the stage costs along the returned trajectory (any history) *)
+(* the reported cost is the sum of the stage costs along the returned trajectory (any dt, any Q) *)
 Theorem lqr_cost_is_sum (s : sysR) dt prob x0 un tm xs us c tm' :
-  lqr_solve s dt prob x0 un tm = Some (xs, us, c, tm') ->
-  c = Jcost s (fwd_start (sk s) tm (length prob)) x0 prob us.
+  lqr_solve s dt prob x0 un tm = Some (xs, us, c, tm') -> c = Jcost s 0 x0 prob us.
 Proof.
   unfold lqr_solve. set (ub := match un with None => repeat zero (length prob) | Some u => u end).
   destruct (Nat.eqb (length ub) (length prob)) eqn:El; cbn [negb]; [|discriminate].
-  apply Nat.eqb_eq in El.
+  apply Nat.eqb_eq in El. rewrite !treset_eq.
   destruct prob as [|st0 pr].
   - intros H. inversion H; subst. reflexivity.
   - lazy beta iota. set (prob := st0 :: pr) in *.
     assert (Hne : (1 <= length prob)%nat) by (subst prob; cbn [length]; lia). clearbody prob.
-    unfold runsys. destruct (rollout s tm x0 (firstn (length prob - 1) ub)) as [xr tm1] eqn:Er.
+    unfold runsys. destruct (rollout s 0%Z x0 (firstn (length prob - 1) ub)) as [xr tm1] eqn:Er.
     set (items := combine (combine prob (x0 :: xr)) ub).
     assert (Exr : length xr = (length prob - 1)%nat).
-    { pose proof (rollout_traj s (firstn (length prob - 1) ub) tm x0) as Ht. rewrite Er in Ht. cbn [fst] in Ht.
+    { pose proof (rollout_traj s (firstn (length prob - 1) ub) 0%Z x0) as Ht. rewrite Er in Ht. cbn [fst] in Ht.
       rewrite Ht, traj_len, firstn_length_le; [reflexivity|lia]. }
     assert (Eli : length items = length prob).
     { unfold items. rewrite !combine_length. cbn [length]. rewrite Exr, El. lia. }
     destruct (bwd s dt 0%Z tm1 items) as [[[[Ks V] v] tm2]|] eqn:Eb; [|discriminate].
-    destruct (bwd_len_time _ _ _ _ _ _ _ _ _ Eb) as [ElK Et2].
-    assert (Et : tm2 = fwd_start (sk s) tm (length prob)).
-    { pose proof (rollout_time s (firstn (length prob - 1) ub) tm x0) as Ht. rewrite Er in Ht. cbn [snd] in Ht.
-      rewrite firstn_length_le in Ht by lia.
-      rewrite Et2, Eli, Ht. unfold fwd_start. destruct (is_ltv (sk s) && (2 <=? length prob)%nat); [lia|reflexivity]. }
-    pose proof (fwd_cost_J s (combine items Ks) tm2 x0) as HJ. change (@zero R NumR) with 0.
-    destruct (fwd s tm2 x0 (combine items Ks) 0) as [[[xs1 us1] c1] tm3] eqn:Ef. cbn [fst snd] in HJ.
-    intros H. inversion H; subst xs us c tm'. rewrite HJ, <- Et. f_equal.
+    destruct (bwd_len_time _ _ _ _ _ _ _ _ _ Eb) as [ElK _]. rewrite treset_eq.
+    pose proof (fwd_cost_J s (combine items Ks) 0%Z x0) as HJ. change (@zero R NumR) with 0.
+    destruct (fwd s 0%Z x0 (combine items Ks) 0) as [[[xs1 us1] c1] tm3] eqn:Ef. cbn [fst snd] in HJ.
+    intros H. inversion H; subst xs us c tm'. rewrite HJ. f_equal.
     rewrite stage_of_combine by exact ElK. unfold items, stages.
     rewrite <- (map_map (@fst (stageR * R) R) (@fst stageR R)).
     rewrite !map_fst_combine; [reflexivity| |rewrite combine_length]; cbn [length]; lia.
 Qed.
 
-(* ---- MPC on a time-invariant linear system returns the LQR optimum *)
+(* ---- MPC on a linear system (time-invariant or time-varying) returns the LQR optimum *)
 Theorem mpc_linear_is_lqr_scalar (s : sysR) prob x0 cfg st u0 tm xs us c tm' st' n :
-  (forall t, scoef s t = scoef s 0%Z) -> Forall pd prob ->
+  sys_ok s -> Forall pd prob ->
   mpc_forward s 1 prob x0 cfg st u0 tm = Some (xs, us, c, tm', st', n) ->
   length us = length prob /\ xs = x0 :: traj s 0 x0 us /\ c = Jcost s 0 x0 prob us /\
   (forall us', length us' = length prob -> c <= Jcost s 0 x0 prob us') /\
   (forall un tm0 xs0 us0 c0 tm0', lqr_solve s 1 prob x0 un tm0 = Some (xs0, us0, c0, tm0') -> c = c0).
 Proof.
-  intros Hc Hpd H. unfold mpc_forward in H.
-  destruct (mpc_loop _ _ _ _ _ _ _ _ _ _) as [[[[st1 best] tm1] n1]|]; [|discriminate].
+  intros Hok Hpd H. unfold mpc_forward, mpc_forward_gen in H.
+  destruct (mpc_loop_gen _ _ _ _ _ _ _ _ _ _ _) as [[[[st1 best] tm1] n1]|]; [|discriminate].
   destruct (lqr_solve s 1 prob x0 _ tm1) as [[[[xs1 us1] c1] tm2]|] eqn:E; [|discriminate].
   inversion H; subst.
-  destruct (lqr_optimal_scalar _ _ _ _ _ _ _ _ _ Hpd (or_intror Hc) E) as (L1 & L2 & L3 & L4).
+  destruct (lqr_optimal_scalar _ _ _ _ _ _ _ _ _ Hpd Hok E) as (L1 & L2 & L3 & L4).
   split; [exact L1|]. split; [exact L2|]. split; [exact L3|]. split; [exact L4|].
   intros un tm0 xs0 us0 c0 tm0' E0.
-  destruct (lqr_optimal_scalar _ _ _ _ _ _ _ _ _ Hpd (or_intror Hc) E0) as (M1 & _ & M3 & M4).
+  destruct (lqr_optimal_scalar _ _ _ _ _ _ _ _ _ Hpd Hok E0) as (M1 & _ & M3 & M4).
   pose proof (L4 us0 M1). pose proof (M4 us L1). lra.
 Qed.
 
 (* hypotheses are satisfiable *)
 Example pd_example : pd {| qxx := 1; qxu := 1 / 2; qux := 1 / 2; quu := 2; px := 3; pu := -1 |}.
 Proof. unfold pd. cbn. repeat split; lra. Qed.
-Example coef_ok_example : coef_ok {| sk := KLTI; scoef := fun _ => (3 / 2, 1, Some (1 / 4)) |} 7%Z 5.
+Example sys_ok_example_lti : sys_ok {| sk := KLTI; scoef := fun _ => (3 / 2, 1, Some (1 / 4)) |}.
 Proof. right. reflexivity. Qed.
+Example sys_ok_example_ltv : sys_ok {| sk := KLTV; scoef := fun t => (IZR t, 1, None) |}.
+Proof. left. reflexivity. Qed.
 End Real.
 
-(* ====================================================================== refutations (witnesses over Q) *)
+(* ====================================================================== witnesses over Q *)
 #[local] Existing Instance NumQ.
 Section Witness.
 Open Scope Q_scope.
@@ -603,22 +534,73 @@ Open Scope Q_scope.
    Q_t = identity, p_t = 0, x_init = 1, horizon 2 *)
 Definition w_sys : ssys (F:=Q) := mk_sys (true, 3%Z, [(1, 1, None); (0, 1, None); (2, 1, None)]).
 Definition w_prob : list (stage (F:=Q)) := map mk_stage [(1, 0, 0, 1, 0, 0); (1, 0, 0, 1, 0, 0)].
+Definition w_cfg : rtb_cfg (F:=Q) := mk_rtb_cfg (9%Z, 5%Z, 1 # 1000, 1 # 100000).
 
-(* two consecutive solves of the same problem on one object: the first (fresh object) returns the
-   optimum 3/4 and leaves the time at 2; the second rolls the nominal trajectory out with A_2, A_3
-   instead of A_0, A_1 and returns inputs of cost 1 *)
+(* ---- the repaired code on the witness (regression cases of the tie) *)
 Lemma w_first  : lqr_solve w_sys 1%Z w_prob 1 None 0%Z = Some ([1; 1 # 2; 0], [-1 # 2; 0], 3 # 4, 2%Z).
 Proof. vm_compute. reflexivity. Qed.
-Lemma w_second : lqr_solve w_sys 1%Z w_prob 1 None 2%Z = Some ([1; 0; 0], [-1; 0], 1, 2%Z).
+Lemma w_second : lqr_solve w_sys 1%Z w_prob 1 None 2%Z = Some ([1; 1 # 2; 0], [-1 # 2; 0], 3 # 4, 2%Z).
 Proof. vm_compute. reflexivity. Qed.
-(* horizon 1 at a stale time: the final state is computed with A_2 = 2 instead of A_0 = 1 *)
-Lemma w_T1_fresh : lqr_solve w_sys 1%Z (firstn 1 w_prob) 1 None 0%Z = Some ([1; 1], [0], 1 # 2, 1%Z).
+Lemma w_T1_stale : lqr_solve w_sys 1%Z (firstn 1 w_prob) 1 None 2%Z = Some ([1; 1], [0], 1 # 2, 1%Z).
 Proof. vm_compute. reflexivity. Qed.
-Lemma w_T1_stale : lqr_solve w_sys 1%Z (firstn 1 w_prob) 1 None 2%Z = Some ([1; 2], [0], 1 # 2, 3%Z).
+Lemma w_mpc : exists st n, mpc_forward w_sys 1%Z w_prob 1 w_cfg rtb_init None 0%Z = Some ([1; 1 # 2; 0], [-1 # 2; 0], 3 # 4, 2%Z, st, n).
+Proof. eexists. eexists. vm_compute. reflexivity. Qed.
+
+(* ---- the code before the fix commits (Model/LQR.v: lqr_solve_old, mpc_forward_old,
+   lqr_shape_raises_old): the recorded refutations.
+   Two consecutive solves of the same problem on one object: the first (fresh object) returns the
+   optimum 3/4 and leaves the time at 2; the second rolled the nominal trajectory out with A_2, A_3
+   instead of A_0, A_1 and returned inputs of cost 1 *)
+Lemma w_first_old  : lqr_solve_old w_sys 1%Z w_prob 1 None 0%Z = Some ([1; 1 # 2; 0], [-1 # 2; 0], 3 # 4, 2%Z).
+Proof. vm_compute. reflexivity. Qed.
+Lemma w_second_old : lqr_solve_old w_sys 1%Z w_prob 1 None 2%Z = Some ([1; 0; 0], [-1; 0], 1, 2%Z).
+Proof. vm_compute. reflexivity. Qed.
+(* horizon 1 at a stale time: the final state was computed with A_2 = 2 instead of A_0 = 1 *)
+Lemma w_T1_fresh_old : lqr_solve_old w_sys 1%Z (firstn 1 w_prob) 1 None 0%Z = Some ([1; 1], [0], 1 # 2, 1%Z).
+Proof. vm_compute. reflexivity. Qed.
+Lemma w_T1_stale_old : lqr_solve_old w_sys 1%Z (firstn 1 w_prob) 1 None 2%Z = Some ([1; 2], [0], 1 # 2, 3%Z).
 Proof. vm_compute. reflexivity. Qed.
 (* MPC with the default stepper (steps=10 lowered to 9, patience 5, decreasing 1e-3, tol 1e-5) on the
-   fresh object: every solve after the first starts at time 2; the returned cost is 1 *)
-Definition w_cfg : rtb_cfg (F:=Q) := mk_rtb_cfg (9%Z, 5%Z, 1 # 1000, 1 # 100000).
-Lemma w_mpc : exists st n, mpc_forward w_sys 1%Z w_prob 1 w_cfg rtb_init None 0%Z = Some ([1; 0; 0], [-1; 0], 1, 2%Z, st, n).
+   fresh object: every solve after the first started at time 2; the returned cost was 1 *)
+Lemma w_mpc_old : exists st n, mpc_forward_old w_sys 1%Z w_prob 1 w_cfg rtb_init None 0%Z = Some ([1; 0; 0], [-1; 0], 1, 2%Z, st, n).
 Proof. eexists. eexists. vm_compute. reflexivity. Qed.
+
+Definition lqr_history_independent_old : Prop :=
+  forall (s : ssys (F:=Q)) prob x0 un tm tm',
+    drop4 (lqr_solve_old s 1 prob x0 un tm) = drop4 (lqr_solve_old s 1 prob x0 un tm').
+Lemma history_independent_old_refuted : ~ lqr_history_independent_old.
+Proof.
+  intros H. specialize (H w_sys w_prob 1 None 0%Z 2%Z). rewrite w_first_old, w_second_old in H. discriminate H.
+Qed.
+Lemma second_solve_suboptimal_old :
+  exists (s : ssys (F:=Q)) prob x0 xs1 us1 c1 t1 xs2 us2 c2 t2,
+    sk s = KLTV /\
+    lqr_solve_old s 1 prob x0 None 0%Z = Some (xs1, us1, c1, t1) /\
+    lqr_solve_old s 1 prob x0 None t1 = Some (xs2, us2, c2, t2) /\ c1 < c2.
+Proof.
+  exists w_sys, w_prob, 1. do 8 eexists. split; [reflexivity|]. split; [exact w_first_old|]. split; [exact w_second_old|].
+  reflexivity.
+Qed.
+Lemma stale_final_state_old :
+  exists (s : ssys (F:=Q)) prob x0 xs1 us1 c1 t1 xs2 us2 c2 t2,
+    lqr_solve_old s 1 prob x0 None 0%Z = Some (xs1, us1, c1, t1) /\
+    lqr_solve_old s 1 prob x0 None 2%Z = Some (xs2, us2, c2, t2) /\ xs1 <> xs2.
+Proof.
+  exists w_sys, (firstn 1 w_prob), 1. do 8 eexists. split; [exact w_T1_fresh_old|]. split; [exact w_T1_stale_old|]. discriminate.
+Qed.
+Lemma mpc_ltv_suboptimal_old :
+  exists (s : ssys (F:=Q)) prob x0 cfg xs1 us1 c1 t1 xs2 us2 c2 t2 st n,
+    sk s = KLTV /\
+    lqr_solve_old s 1 prob x0 None 0%Z = Some (xs1, us1, c1, t1) /\
+    mpc_forward_old s 1 prob x0 cfg rtb_init None 0%Z = Some (xs2, us2, c2, t2, st, n) /\ c1 < c2.
+Proof.
+  destruct w_mpc_old as [st [n H]].
+  exists w_sys, w_prob, 1, w_cfg. do 8 eexists. exists st, n.
+  split; [reflexivity|]. split; [exact w_first_old|]. split; [exact H|]. reflexivity.
+Qed.
+Lemma shape_raises_old_witness :
+  exists nb ns T, (1 <= nb <= 3)%nat /\ (1 <= ns <= 6)%nat /\ (1 <= T <= 20)%nat /\ lqr_shape_raises_old nb ns T = true.
+Proof. exists 2%nat, 1%nat, 2%nat. repeat split; auto with arith. Qed.
+Lemma shape_never_raises nb ns T : lqr_shape_raises nb ns T = false.
+Proof. reflexivity. Qed.
 End Witness.
